@@ -8,6 +8,13 @@ use std::collections::BTreeMap;
 
 /// statement contexts: (name, prefix, suffix, needs_tsx, needs_ts)
 pub const CONTEXTS: &[(&str, &str, &str, bool, bool)] = &[
+  // accessor functions handed to the property-definition built-ins (some rules look into them specially), each with a
+  // `return` before and after the hole
+  ("defineProperty-getter", "Object.defineProperty(o0, \"k\", { get() { if (c9) return 0;\n", "\nreturn 1; } });", false, false),
+  ("defineProperty-getter-fn", "Reflect.defineProperty(o1, \"k\", { get: function () { if (c9) return 0;\n", "\nreturn 1; } });", false, false),
+  ("defineProperties-getter", "Object.defineProperties(o2, { k: { get: () => { if (c9) return 0;\n", "\nreturn 1; } } });", false, false),
+  ("object-create-getter", "Object.create(p0, { k: { get() { if (c9) return 0;\n", "\nreturn 1; } } });", false, false),
+  ("object-getter-after-return", "const og = { get k() { if (c9) { return 0; }\n", "\nreturn 1; } };", false, false),
   ("block", "{\n", "\n}", false, false),
   ("function-decl", "function w0() {\n", "\n}", false, false),
   ("arrow-body", "const a0 = () => {\n", "\n};", false, false),
@@ -38,9 +45,9 @@ pub const CONTEXTS: &[(&str, &str, &str, bool, bool)] = &[
   ("iife", "(function () {\n", "\n})();", false, false),
   ("call-arg", "foo(1, () => {\n", "\n});", false, false),
   ("new-arg", "new Foo(function () {\n", "\n});", false, false),
-  ("default-param", "function d0(a = () => {\n", "\n}) { }", false, false),
-  ("destructuring-default", "const { a = () => {\n", "\n} } = o;", false, false),
-  ("array-destructuring-default", "const [b = function () {\n", "\n}] = arr;", false, false),
+  ("default-param", "function d0(p9 = () => {\n", "\n}) { }", false, false),
+  ("destructuring-default", "const { q9 = () => {\n", "\n} } = o9;", false, false),
+  ("array-destructuring-default", "const [r9 = function () {\n", "\n}] = arr9;", false, false),
   ("template-substitution", "`t${() => {\n", "\n}}`;", false, false),
   ("tagged-template", "tag`x${function () {\n", "\n}}`;", false, false),
   ("return-arg", "function r0() { return () => {\n", "\n}; }", false, false),
@@ -136,6 +143,41 @@ pub const CONTEXT_DEPENDENT: &[(&str, &str)] = &[
   ("no-boolean-literal-for-arguments", "none - kept context-free? no: depends on callee"),
 ];
 
+/// rules of CONTEXT_DEPENDENT whose verdict depends on the enclosing function / class / switch / try only: a construct
+/// that brings its own enclosure along (a snippet whose top-level statements are all function declarations, class
+/// declarations, variable declarations or expression statements) is context-free again and goes through the same oracle.
+pub const CLOSED_WHEN_SELF_CONTAINED: &[&str] = &[
+  "getter-return", "no-unreachable", "no-fallthrough", "require-yield", "no-setter-return", "no-this-before-super",
+  "constructor-super", "no-unsafe-finally", "no-duplicate-case", "no-dupe-class-members", "no-case-declarations",
+  "no-unused-labels", "no-this-alias",
+];
+
+/// rules of CONTEXT_DEPENDENT whose verdict depends on the bindings in scope: the contexts only bind names no corpus
+/// snippet uses (`c0`, `o1`, `K3`, ...), so a construct keeps its verdict wherever it is nested (no sibling constructs
+/// for these: two snippets of a scope rule may well talk about the same name).
+pub const SCOPE_LOCAL: &[&str] = &[
+  "no-redeclare", "no-const-assign", "no-class-assign", "no-func-assign", "no-ex-assign", "no-shadow-restricted-names",
+  "prefer-const", "no-unused-vars", "no-undef", "no-global-assign", "no-window", "no-window-prefix", "no-process-global",
+  "no-node-globals", "no-deprecated-deno-api", "no-console", "no-eval", "no-obj-calls", "no-new-symbol",
+  "no-prototype-builtins", "prefer-primordials", "no-var",
+  // not scope rules, but context-free in the same way: character-level and comment rules (the construct carries its
+  // characters and comments along), and rules about a whole declaration the construct brings along
+  "prefer-ascii", "no-irregular-whitespace", "ban-ts-comment", "ban-untagged-todo", "camelcase",
+  "adjacent-overload-signatures", "require-await", "no-boolean-literal-for-arguments",
+];
+
+fn self_contained(src: &str, ext: &str) -> bool {
+  use deno_ast::swc::ast::{Decl, ModuleItem, Stmt};
+  let crate::d_scan::Full::Ok(ps, _) = crate::d_scan::lint_full(&mk_linter(vec![], &Words::default()), src, ext, &Cfg::default()) else {
+    return false;
+  };
+  let ok = |s: &Stmt| matches!(s, Stmt::Decl(Decl::Fn(_)) | Stmt::Decl(Decl::Class(_)) | Stmt::Decl(Decl::Var(_)) | Stmt::Expr(_) | Stmt::Empty(_));
+  match ps.program_ref() {
+    deno_ast::ProgramRef::Module(m) => m.body.iter().all(|i| matches!(i, ModuleItem::Stmt(s) if ok(s))),
+    deno_ast::ProgramRef::Script(sc) => sc.body.iter().all(ok),
+  }
+}
+
 fn embeddable(src: &str) -> bool {
   // module-level-only syntax cannot be nested; `return`-bearing / `yield` / `await` snippets change meaning by context
   let s = src;
@@ -192,9 +234,58 @@ fn self_nesting(out: &mut Out) {
   }
 }
 
+/// the same pattern text twice in one file, once in Unicode mode and once not, valid in exactly one of the modes: each
+/// occurrence gets the verdict of its own mode, in both orders and wherever the two stand (invalid one, valid one)
+const MODE_PAIRS: &[(&str, &str)] = &[
+  ("/a{1/u", "/a{1/"),
+  ("/\\-/u", "/\\-/"),
+  ("/[\\u{1F600}-\\u{1F601}]/", "/[\\u{1F600}-\\u{1F601}]/u"),
+  ("new RegExp(\"\\\\-\", \"u\")", "new RegExp(\"\\\\-\")"),
+  ("new RegExp(\"a{1\", \"u\")", "new RegExp(\"a{1\", \"g\")"),
+  ("/\\p{Foo}/u", "/\\p{Foo}/"),
+  ("/(?<a>.)\\k<b>/", "/(?<a>.)\\k<a>/"),
+];
+
+fn mode_pairs(out: &mut Out, rng: &mut Rng) {
+  if !all_codes().contains(&"no-invalid-regexp".to_string()) {
+    return;
+  }
+  let l = mk_linter(rules_by_codes(&["no-invalid-regexp".to_string()]), &Words::default());
+  for (bad, good) in MODE_PAIRS {
+    for order in 0..2 {
+      for _ in 0..6 {
+        let c1 = rng.below(CONTEXTS.len());
+        let c2 = rng.below(CONTEXTS.len());
+        if CONTEXTS[c1].3 || CONTEXTS[c2].3 || CONTEXTS[c1].0.starts_with("export") || CONTEXTS[c2].0.starts_with("export") || CONTEXTS[c1].0 == "namespace" || CONTEXTS[c2].0 == "namespace" {
+          continue;
+        }
+        let wrap = |c: usize, e: &str| format!("{}x = {};{}", CONTEXTS[c].1, e, CONTEXTS[c].2);
+        let (first, second) = if order == 0 { (wrap(c1, bad), wrap(c2, good)) } else { (wrap(c1, good), wrap(c2, bad)) };
+        let src = format!("{}\n{}\n", first, second);
+        let alone_bad = if order == 0 { format!("{}\n{}\n", wrap(c1, bad), wrap(c2, "0")) } else { format!("{}\n{}\n", wrap(c1, "0"), wrap(c2, bad)) };
+        match (lint(&l, &src, "ts"), lint(&l, &alone_bad, "ts")) {
+          (Outcome::Ok(d), Outcome::Ok(d0)) => {
+            out.eval(&format!("mode-pair|{}|{}|{}", bad, order, src), true, json!({"src": src}));
+            out.count("mode-pair");
+            // the valid twin is as long as "0" plus a constant: compare counts and the start of the report
+            if d.len() != d0.len() || d.iter().map(|x| x.start).collect::<Vec<_>>() != d0.iter().map(|x| x.start.map(|s| if order == 1 { s + good.len() - 1 } else { s })).collect::<Vec<_>>() {
+              out.found("C08", "created:no-invalid-regexp:same-text-other-mode-sibling", &src, json!({"meta": {"rule": "no-invalid-regexp", "embedded": src, "invalid": bad, "valid": good, "contexts": [CONTEXTS[c1].0, CONTEXTS[c2].0]}, "with_valid_twin": d.iter().map(|x| x.json()).collect::<Vec<_>>(), "invalid_alone": d0.iter().map(|x| x.json()).collect::<Vec<_>>()}));
+            }
+          }
+          _ => out.count("mode-pair-does-not-parse"),
+        }
+      }
+    }
+  }
+}
+
 pub fn run(args: &Args) {
   let mut out = Out::new(&args.out, "embed");
   self_nesting(&mut out);
+  {
+    let mut r = Rng::new(args.seed ^ 0x30DE);
+    mode_pairs(&mut out, &mut r);
+  }
   let mut rng = Rng::new(args.seed ^ 0xE3BED);
   let corpus = crate::d_scan::load_corpus();
   let depth: usize = args.opts.get("depth").and_then(|s| s.parse().ok()).unwrap_or(2);
@@ -204,7 +295,11 @@ pub fn run(args: &Args) {
   let mut by_rule: BTreeMap<String, Vec<usize>> = BTreeMap::new();
   let mut linters: BTreeMap<String, deno_lint::linter::Linter> = BTreeMap::new();
   for (i, sn) in corpus.iter().enumerate() {
-    if !all.contains(&sn.rule) || excluded.contains(&sn.rule.as_str()) || !embeddable(&sn.src) {
+    let closed_class = CLOSED_WHEN_SELF_CONTAINED.contains(&sn.rule.as_str());
+    if !all.contains(&sn.rule) || (excluded.contains(&sn.rule.as_str()) && !closed_class && !SCOPE_LOCAL.contains(&sn.rule.as_str())) || !embeddable(&sn.src) {
+      continue;
+    }
+    if closed_class && !self_contained(&sn.src, "ts") {
       continue;
     }
     let l = linters.entry(sn.rule.clone()).or_insert_with(|| mk_linter(rules_by_codes(&[sn.rule.clone()]), &Words::default()));
@@ -248,6 +343,14 @@ pub fn run(args: &Args) {
         break;
       }
     }
+    // two documented dependences on the innermost context: no-var exempts declarations directly in a namespace / ambient
+    // module block (`declare global { var x }`); a function declaration is block-scoped in a block and function-scoped
+    // in a function body, so `var a; function a() {}` is one binding or two depending on where it stands
+    let innermost = CONTEXTS[*chain.last().unwrap()].0;
+    if (rule == "no-var" && innermost == "namespace") || (rule == "no-redeclare" && sn.src.contains("function ")) {
+      out.count("skipped-documented-context-dependence");
+      continue;
+    }
     let ext = if tsx { "tsx" } else { "ts" };
     let l = &linters[rule];
     // build ctx[S] and ctx[;]
@@ -261,7 +364,9 @@ pub fn run(args: &Args) {
     // everything else — the construct itself with its regular-expression flags toggled when it has any, else another
     // triggering snippet of the rule.  A context-free rule reports each of them as if the other were not there.
     let mut names: Vec<&str> = chain.iter().map(|c| CONTEXTS[*c].0).collect();
-    if case_no % 4 == 3 {
+    // (drawn, not `case_no % 4`: the rules are visited round-robin, and a rule count divisible by four would give some
+    // rules a sibling always and the others never)
+    if (crng.chance(1, 4) || (sn.src.contains("RegExp") && crng.chance(1, 2))) && !SCOPE_LOCAL.contains(&rule.as_str()) {
       let toggled = sn.src.replace("/u", "/\u{1}").replace("/g", "/gu").replace("/\u{1}", "/").replace("\"u\")", "\"\")").replace("'u')", "'')").replace("/;", "/u;").replace("/)", "/u)");
       let sib = if toggled != sn.src && crng.chance(2, 3) {
         toggled
